@@ -115,6 +115,48 @@ def fault_scenarios(m, scratch, rep, tier):
     return n
 
 
+def partition_scenarios(m, scratch, rep, rng, tier):
+    """partition results whose members repeat (within one partition, across partitions, staged in memory or on disk):
+    equal bytes share one stored object, every object hashes to its key"""
+    import gc
+    import shutil
+    from twosigma.memento.storage_filesystem import FilesystemStorageBackend
+    from . import fnlib, fnmod
+    n = 0
+    for si in range(6 if tier == "quick" else 40):
+        root = os.path.join(scratch, "c07-part-%d" % si)
+        shutil.rmtree(root, ignore_errors=True)
+        fnlib.set_env(m, root, {"fc": (FilesystemStorageBackend(path=os.path.join(root, "data"), memory_cache_mb=rng.choice([None, 1])), None)})
+        vals = [{"k": "str", "v": "dup-%d" % si * 5}, {"k": "int", "v": 1000 + si}, {"k": "bytes", "v": "ab" * 20}, {"k": "nd", "v": [si, 1, 2], "dtype": "int64", "shape": [3]}]
+        specs = []
+        for pi in range(rng.randint(1, 3)):
+            members = [["k%d" % j, rng.choice(vals)] for j in range(rng.randint(2, 5))]
+            members[1][1] = members[0][1]                       # two members with equal bytes, new to the store when first written
+            specs.append({"id": 40000 + si * 10 + pi, "ret": {"k": rng.choice(["part", "odpart"]), "v": members}})
+        meta = {"partitions": specs}
+        try:
+            for sp in specs:
+                fnmod.n0(sp)
+        except Exception as e:
+            rep.violation("C07:partition-call-raised", "%s: %s" % (type(e).__name__, str(e)[:150]), meta)
+            continue
+        n += 1
+        per_key = {}
+        for key, uuid, digest in scan(os.path.join(root, "data")):
+            if key.startswith("c/"):
+                per_key.setdefault(key, []).append((uuid, digest))
+        for key, versions in per_key.items():
+            if len(versions) > 1:
+                rep.violation("C07:content-key-has-several-versions:partition-members", "content key %s holds %d stored objects after storing partitions with repeated members" % (key, len(versions)), meta)
+                break
+            if key.split("/")[-1] != versions[0][1] and "index" not in key:
+                rep.violation("C07:published-bytes-do-not-hash-to-key:partition-members", "object under %s hashes to %s" % (key, versions[0][1]), meta)
+                break
+        gc.collect()
+        shutil.rmtree(root, ignore_errors=True)
+    return n
+
+
 def gen_history(rng, length, ids):
     ops = []
     pool = []
@@ -281,6 +323,7 @@ def run(tier, seed):
                     rep.samples.append({"config": config, "ops": ops[:8]})
         n_fault = fault_scenarios(m, scratch, rep, tier)
         dist["interrupted_write_points"] = n_fault
+        dist["partition_scenarios"] = partition_scenarios(m, scratch, rep, rng, tier)
         try:
             res = C.run_coq_cases("c07", HEADER, terms, "vcase",
                                   case_type="bool * list (Z * string) * list (vop * list ((string * Z) * Z))")
